@@ -5,22 +5,26 @@ tvars == <<vars, l>>
 Tr == ndJsonDeserialize(IOEnv.TRACE)
 E == Tr[l]
 Is(op) == l <= Len(Tr) /\ Tr[l].op = op /\ l' = l + 1
-ObsOK == /\ E.count = Count(chain') /\ E.pre = PreOrder(chain') /\ E.post = PostOrder(chain')
+ObsOK == /\ E.count = Count(chain') /\ E.isen = en'[E.name] /\ E.pre = PreOrder(chain') /\ E.post = PostOrder(chain')
          /\ (E.op \in {"enable", "disable"} => E.res = res')
 TInit == Init /\ l = 1
 TNext == /\ \/ Is("install") /\ Install(E.name)
             \/ Is("remove") /\ Remove(E.name)
             \/ Is("enable") /\ SetEnabled(E.name, TRUE)
             \/ Is("disable") /\ SetEnabled(E.name, FALSE)
+            \/ Is("objenable") /\ ObjSetEnabled(E.name, TRUE)
+            \/ Is("objdisable") /\ ObjSetEnabled(E.name, FALSE)
          /\ ObsOK
-TReset == Is("reset") /\ chain' = <<>> /\ res' = "ok"
+TReset == Is("reset") /\ chain' = <<>> /\ en' = [n \in Names |-> TRUE] /\ res' = "ok"
 TSpec == TInit /\ [][TNext \/ TReset]_tvars
 Accepted == TLCGet("stats").diameter - 1 = Len(Tr)
-TInv == NoDup /\ PostIsReverseOfPre
+TInv == NoDup /\ PostIsReverseOfPre /\ FlagIsTheObjects
 PNext == \/ Is("install") /\ Install(E.name)
          \/ Is("remove") /\ Remove(E.name)
          \/ Is("enable") /\ SetEnabled(E.name, TRUE)
          \/ Is("disable") /\ SetEnabled(E.name, FALSE)
+         \/ Is("objenable") /\ ObjSetEnabled(E.name, TRUE)
+         \/ Is("objdisable") /\ ObjSetEnabled(E.name, FALSE)
 PSpec == TInit /\ [][PNext \/ TReset]_tvars
 Predict == (l > 1 /\ l - 1 >= atoi(IOEnv.FROM_LINE_N)) =>
               PrintT(<<"BEH", ToJson([line |-> l - 1, count |-> Count(chain), pre |-> PreOrder(chain), post |-> PostOrder(chain), res |-> res])>>)
